@@ -329,10 +329,9 @@ func (m *Machine) sendCoins(from, to *Term, c *CoinsV, mayBlock bool, userSender
 	}
 	var errT *Term
 	if userSender {
-		// locked coins etc.: may fail for reasons outside the model, never succeeds without funds
-		e := E.D.Fresh("senderr", SInt)
-		m.AssumeT(Implies(Eq(e, IntLit(0)), ok))
-		errT = e
+		// a user account may hold locked (vesting) coins: spendable(a) says it does not
+		E.D.Fun("spendable", []Sort{SBytes}, SBool)
+		errT = Ite(And(ok, App(SBool, "spendable", from)), IntLit(0), IntLit(993))
 	} else {
 		errT = Ite(ok, IntLit(0), IntLit(999))
 	}
